@@ -1,6 +1,7 @@
 import Pyunicorn.Lemmas.Random
 /-! Helper lemmas for C17, cross-link kernels (core Lean only). -/
 namespace Pyunicorn.Random
+open Pyunicorn.Generated.StructC17
 
 
 theorem rsum_single (a : Nat) (x : Int) (n : Nat) :
@@ -32,7 +33,7 @@ theorem crossSetRun_spec (m n k : Nat) (draws : List (Nat × Nat)) (C : Adj) (do
     obtain ⟨i, j⟩ := d
     have hij := hd (i, j) (by simp)
     have hd' : ∀ d ∈ ds, d.1 < m ∧ d.2 < n := fun d h => hd d (by simp [h])
-    simp only [crossSetRun]
+    rw [crossSetRun_cons]
     split
     · split
       · exact ih C done hd'
@@ -60,38 +61,39 @@ structure CrossInv (m n : Nat) (C : Adj) (links : List (Nat × Nat)) : Prop wher
 theorem crossStep_cases (st st' : CrossSt) (d : Nat × Nat) (h : crossStep st d = some st') :
     st' = st ∨ ∃ a b c e, ∃ (hp : d.1 < st.links.length) (hq : d.2 < st.links.length),
       st.links[d.1] = (a, b) ∧ st.links[d.2] = (c, e) ∧ st.C a e = false ∧ st.C c b = false ∧
-      st' = { C := (((st.C.set a b false).set c e false).set a e true).set c b true
+      st' = { C := swapped st.C a b c e
               links := (st.links.set d.1 (a, e)).set d.2 (c, b)
               done := st.done + 1 } := by
   unfold crossStep at h
   split at h
   · rename_i a b c e h1 h2
+    rw [List.getElem?_eq_some_iff] at h1 h2
+    obtain ⟨hp, h1⟩ := h1
+    obtain ⟨hq, h2⟩ := h2
+    rw [rewBreak_eq, rewWrites_eq, runMoves_eq st.links d.1 d.2 a b c e hp hq h1 h2] at h
     split at h
-    · left; simpa using h.symm
     · right
       rename_i hc
-      rw [List.getElem?_eq_some_iff] at h1 h2
-      obtain ⟨hp, h1⟩ := h1
-      obtain ⟨hq, h2⟩ := h2
-      simp only [Bool.or_eq_true, not_or, Bool.not_eq_true] at hc
+      simp only [Bool.not_eq_true', Bool.or_eq_false_iff] at hc
       refine ⟨a, b, c, e, hp, hq, h1, h2, hc.1, hc.2, ?_⟩
       simpa using h.symm
+    · left; simpa using h.symm
   · simp at h
 
 theorem swap_apply (C : Adj) (a b c e x y : Nat) (hac : a ≠ c) (_hbe : b ≠ e) :
-    ((((C.set a b false).set c e false).set a e true).set c b true) x y =
+    (swapped C a b c e) x y =
       if (x = a ∧ y = e) ∨ (x = c ∧ y = b) then true
       else if (x = a ∧ y = b) ∨ (x = c ∧ y = e) then false else C x y := by
-  unfold Adj.set
+  simp only [swapped, applyWrites, rewWrites, List.foldl_cons, List.foldl_nil, Adj.set]
   grind
 
 theorem crossInv_swap (m n : Nat) (C : Adj) (L : List (Nat × Nat)) (p q a b c e : Nat)
     (hp : p < L.length) (hq : q < L.length) (e1 : L[p] = (a, b)) (e2 : L[q] = (c, e))
     (h1 : C a e = false) (h2 : C c b = false) (inv : CrossInv m n C L) :
-    CrossInv m n ((((C.set a b false).set c e false).set a e true).set c b true)
+    CrossInv m n (swapped C a b c e)
       ((L.set p (a, e)).set q (c, b)) ∧
-    (∀ r, deg ((((C.set a b false).set c e false).set a e true).set c b true) n r = deg C n r) ∧
-    (∀ r, colDeg ((((C.set a b false).set c e false).set a e true).set c b true) m r = colDeg C m r) := by
+    (∀ r, deg (swapped C a b c e) n r = deg C n r) ∧
+    (∀ r, colDeg (swapped C a b c e) m r = colDeg C m r) := by
   obtain ⟨inb, ones, inj, complete⟩ := inv
   have hab : C a b = true := by have := ones p hp; rw [e1] at this; exact this
   have hce : C c e = true := by have := ones q hq; rw [e2] at this; exact this
@@ -132,10 +134,12 @@ theorem crossInv_swap (m n : Nat) (C : Adj) (L : List (Nat × Nat)) (p q a b c e
         rw [getElem_set2]
         grind
   · intro r
+    simp only [swapped, applyWrites, rewWrites, List.foldl_cons, List.foldl_nil]
     simp only [deg_set]
     simp [Adj.set, *]
     grind [b2i]
   · intro r
+    simp only [swapped, applyWrites, rewWrites, List.foldl_cons, List.foldl_nil]
     simp only [colDeg_set]
     simp [Adj.set, *]
     grind [b2i]
@@ -179,11 +183,20 @@ theorem mem_overwriteWrites (C : Adj) (nodes1 nodes2 : List Nat) (w : Nat × Nat
     w ∈ overwriteWrites C nodes1 nodes2 ↔
       ∃ i j n1 n2, nodes1[i]? = some n1 ∧ nodes2[j]? = some n2 ∧
         (w = (n1, n2, C i j) ∨ w = (n2, n1, C i j)) := by
-  simp only [overwriteWrites, List.mem_flatMap, Prod.exists, List.mem_zipIdx_iff_getElem?,
-    List.mem_cons, List.not_mem_nil, or_false]
+  simp only [overwriteWrites, List.mem_flatMap, List.mem_range, (overwrite_reads_eq _ _).1,
+    (overwrite_reads_eq _ _).2]
   constructor
-  · rintro ⟨n1, i, h1, n2, j, h2, h⟩; exact ⟨i, j, n1, n2, h1, h2, h⟩
-  · rintro ⟨i, j, n1, n2, h1, h2, h⟩; exact ⟨n1, i, h1, n2, j, h2, h⟩
+  · rintro ⟨i, hi, j, hj, h⟩
+    rw [List.getElem?_eq_getElem hi, List.getElem?_eq_getElem hj] at h
+    simp only [mem_owWrites] at h
+    exact ⟨i, j, _, _, List.getElem?_eq_getElem hi, List.getElem?_eq_getElem hj, h⟩
+  · rintro ⟨i, j, n1, n2, h1, h2, h⟩
+    obtain ⟨hi, rfl⟩ := List.getElem?_eq_some_iff.1 h1
+    obtain ⟨hj, rfl⟩ := List.getElem?_eq_some_iff.1 h2
+    refine ⟨i, hi, j, hj, ?_⟩
+    rw [List.getElem?_eq_getElem hi, List.getElem?_eq_getElem hj]
+    simp only [mem_owWrites]
+    exact h
 
 
 /-- no duplicates, in index form -/
